@@ -655,6 +655,20 @@ def check_string_probes(program, rep):
                 continue
             n += 1
             v = sb.value.id
+
+            def _nonempty(x):
+                # a test that is true only for a non-empty string
+                t_ = norm(x)
+                if t_ in (v, f'len({v})', f"{v} != ''"):
+                    return True
+                return isinstance(x, ast.Compare) and len(x.ops) == 1 \
+                    and norm(x.left) == f'len({v})' and isinstance(
+                        x.ops[0], (ast.Gt, ast.GtE, ast.NotEq)) \
+                    and isinstance(x.comparators[0], ast.Constant) \
+                    and isinstance(x.comparators[0].value, int) \
+                    and (x.comparators[0].value >= 1 or isinstance(
+                        x.ops[0], (ast.Gt, ast.NotEq))
+                        and x.comparators[0].value >= 0)
             guarded = False
             cur = sb
             while id(cur) in parents:
@@ -662,14 +676,11 @@ def check_string_probes(program, rep):
                 if isinstance(par, ast.BoolOp) and isinstance(par.op, ast.And):
                     idx = next(i for i, x in enumerate(par.values)
                                if any(y is cur for y in ast.walk(x)))
-                    if any(norm(x) in (v, f'len({v})', f'len({v}) > 0',
-                                       f"{v} != ''")
-                           for x in par.values[:idx]):
+                    if any(_nonempty(x) for x in par.values[:idx]):
                         guarded = True
                 if isinstance(par, ast.If) and any(
                         y is cur for s in par.body for y in ast.walk(s)) \
-                        and norm(par.test) in (v, f'len({v})',
-                                               f'len({v}) > 0', f"{v} != ''"):
+                        and _nonempty(par.test):
                     guarded = True
                 cur = par
             rep.check(guarded, 'C15.markers', f'{mod.relpath}:{fn.name}', sb,
